@@ -57,8 +57,16 @@ class Session:
         return len(self.ops) - 1
 
 
-def run_ops(ctx, exe, ops, timeout=300):
-    r = ctx.run_harness(exe, "\n".join(ops) + "\n", timeout=timeout)
+class Slow(Exception):
+    pass
+
+
+def run_ops(ctx, exe, ops, timeout=150):
+    import subprocess
+    try:
+        r = ctx.run_harness(exe, "\n".join(ops) + "\n", timeout=timeout)
+    except subprocess.TimeoutExpired:
+        raise Slow()
     return r.stdout.splitlines(), r.returncode, r.stderr[-400:]
 
 
@@ -136,6 +144,15 @@ def raw_entities(text):
 
 
 def eval_case(ctx, exe, case, status_of, deep=True):
+    """eval_case_inner with a wall-clock guard: a state whose calculations take longer than the budget is counted, not judged"""
+    try:
+        return eval_case_inner(ctx, exe, case, status_of, deep)
+    except Slow:
+        return dict(problems=[("setup", "time budget of one harness process exceeded (slow kinetics of the state)")],
+                    judged=False, d1_ne_d2=False, followups=0, copies=0, notes=["timeout"], timeout=True)
+
+
+def eval_case_inner(ctx, exe, case, status_of, deep=True):
     """run one generated state through the real library. Returns dict(problems=[(class, text)], stats…).
     problem classes: 'setup' (not judged), 'read-error', 'not-fixed', 'followup', 'modify', 'bincopy', 'sercopy',
     'icopy', 'model' (first/second dump differ on a key the model calls restored)"""
@@ -524,6 +541,7 @@ def run(ctx):
             feat_hist[f] = feat_hist.get(f, 0) + 1
         if not r["judged"]:
             stats["setup_failed"] += 1
+            stats["timeouts"] = stats.get("timeouts", 0) + bool(r.get("timeout"))
             continue
         stats["judged"] += 1
         distinct.add(c["setup"])
@@ -685,7 +703,11 @@ MANIFEST = dict(
           "the Lean `failing`); real CParser::find_option on the real vopts vs the model; generated states of every entity kind: dump → fresh "
           "instance → dump → fresh instance → dump (no errors, equal text after ≤1 cycle), follow-up calculations at 1e-7, SOLUTION_MODIFY, "
           "StorageBin / Serializer / copy-constructor (InternalCopy) copies; first-vs-second dump differences must be predicted by the model."),
-    note=("Trusted: gen_raw.py (regex/brace extraction), rawparse.py, harness/ph_raw.cpp, g++. Partial: print/parse of one value (14 digits) is "
+    note=("Trusted: gen_raw.py (regex/brace extraction), rawparse.py, harness/ph_raw.cpp, g++. Follow-ups run with "
+          "convergence_tolerance 1e-12; states with KINETICS are compared at 1e-4 (adaptive integrator); a SOLUTION_MODIFY that restores "
+          "totals/H/O/cb is applied to the restored state. Departures with a known signature are routed through ctx.finding: isotope-* "
+          "(4 keys), gascomp-p_read-nan, gas-phase-first-step-lag, copy-constructor-pitzer, raw-text-14-digits-pH, "
+          "exchange-on-empty-phase-two-cycles, exchange-tied-to-phase-followup. Partial: print/parse of one value (14 digits) is "
           "the hypothesis Sys.ValOk, exercised not proved; the record model is flat per class (a nested block is one field whose norm is the "
           "child's cycle); continuation lines of name/value blocks whose name equals an option (e.g. element La in an exchanger's totals) are "
           "outside the model; Serialize/Deserialize index sequences are compared dynamically only."),
